@@ -14,8 +14,9 @@
    (strictly ascending part numbers and matching ETags, otherwise the call fails); every S3
    call may fail (fault oracle).  Broker model: the reply to the produce request is an oracle
    value (error code of the partition, transport error, unparseable frame, no partition, no
-   backend).  Digests are a Section variable.  Not modelled: API key / S3 health / topic
-   validation (all before the upload), session expiry (TTL 1 h), request-id, metrics, tracker.
+   backend).  Digests are a Section variable.  Session map, expiry and overlapping requests:
+   see [sys]/[cstep] at the end.  Not modelled: API key / S3 health / topic validation (all
+   before the upload), request-id, metrics, tracker.
    No proofs in this file. *)
 From KS Require Import lib.Base.
 Open Scope Z_scope.
